@@ -5,6 +5,6 @@ package main
 import "verifharness/internal/vh"
 
 // plugin mode needs the package internal/x05plugin, generated from the plugin's sources by checks/x05.py (tag x05plugin, cgo)
-func execPlugin(_ *vh.Trace, _ Family, _ Run, _ string) {
+func execPlugin(_ *vh.Trace, _ Family, _ Run, _ int, _ string) {
 	vh.Die("plugin mode: build with -tags x05plugin after generating internal/x05plugin (see checks/x05.py)")
 }
